@@ -508,6 +508,13 @@ def conjunction_keeps_every_operand(ctx):
         if key not in F:
             continue
         for fb in lib.family_ext(F, key):
+            # `fold(first, BitAnd::bitand)`: the step IS the operator
+            for c in fb.calls(r'^std::iter::Iterator::(fold|reduce)$'):
+                for a in c.args:
+                    fn = (a.get('c') or {}).get('fn') if isinstance(a, dict) else None
+                    if fn and fn.get('def') == 'std::ops::BitAnd::bitand' and AP in (fn.get('full') or fn.get('res') or ''):
+                        n += 1
+                        ctx.ok(fb.key, 'every operand is and-ed in', 'the folding step is `&` itself', fb.where(c.ln))
             ands = fb.calls(r'^std::ops::BitAnd::bitand$')
             ands = [c for c in ands if AP in (c.self_ty or '') or AP in c.full]
             if not ands:
